@@ -40,6 +40,9 @@ func oracle(parts []PartSpec, o *outcome) *Violation {
 		vs = append(vs, Violation{Class: class, Detail: o.stmt + ": " + fmt.Sprintf(f, a...)})
 	}
 	p := o.p
+	if o.execErr != "" {
+		add("truncate-failed", "%s", o.execErr)
+	}
 	// DRYRUN changes nothing
 	for i := range parts {
 		if !sameObs(o.before[i], o.afterDry[i]) {
